@@ -60,14 +60,19 @@ def enabled(events, maxnest):
     return out
 
 
+def _transition(h2, depth, case):
+    msgs, dg, nt = modsearch.check_module(h2, None, case)
+    return msgs, dg, nt, (modsearch.impl_key(h2, case) if len(h2) < depth else None)
+
+
 def expand(history, maxnest, depth, case):
     out = []
     for ev in enabled(history, maxnest):
         h2 = history + [ev]
-        msgs, dg, nt = modsearch.check_module(h2, None, case)
+        msgs, dg, nt, impl = _transition(h2, depth, case)
         key = None
         if len(h2) < depth:
-            key = (statespace.model_key(h2), modsearch.impl_key(h2, case))
+            key = (statespace.model_key(h2), impl)
         out.append(modsearch.result(ev, key, msgs, dg, nt))
     return out
 
